@@ -418,6 +418,28 @@ func (in *Interp) intrinsic(fr *Frame, name string, args []Value, fn *ssa.Functi
 		} else {
 			return roundIntegral(mode, f)
 		}
+	case "math.Max", "math.Min":
+		if allConcrete(args) {
+			if name == "math.Max" {
+				return math.Max(args[0].(float64), args[1].(float64))
+			}
+			return math.Min(args[0].(float64), args[1].(float64))
+		}
+		x, y := in.lift(args[0], types.Typ[types.Float64]), in.lift(args[1], types.Typ[types.Float64])
+		nan := ts.Or(ts.Mk("fp.isNaN", SBool, x), ts.Mk("fp.isNaN", SBool, y))
+		bothZero := ts.And(ts.Mk("fp.isZero", SBool, x), ts.Mk("fp.isZero", SBool, y))
+		qnan := ts.F64(math.NaN())
+		if name == "math.Max" {
+			// Max(x,+Inf)=+Inf; NaN if either is NaN (after the Inf rule); Max(+0,-0)=+0
+			inf := ts.F64(math.Inf(1))
+			anyInf := ts.Or(ts.Eq(x, inf), ts.Eq(y, inf))
+			zero := ts.Ite(ts.Mk("fp.isNegative", SBool, x), y, x)
+			return ts.Ite(anyInf, inf, ts.Ite(nan, qnan, ts.Ite(bothZero, zero, ts.Ite(ts.Mk("fp.gt", SBool, x, y), x, y))))
+		}
+		inf := ts.F64(math.Inf(-1))
+		anyInf := ts.Or(ts.Eq(x, inf), ts.Eq(y, inf))
+		zero := ts.Ite(ts.Mk("fp.isNegative", SBool, x), x, y)
+		return ts.Ite(anyInf, inf, ts.Ite(nan, qnan, ts.Ite(bothZero, zero, ts.Ite(ts.Mk("fp.lt", SBool, x, y), x, y))))
 	case "math.Float64bits":
 		if f, t := f64(0); t != nil {
 			// fresh bit-vector constrained through to_fp (NaN payload unconstrained)
@@ -626,7 +648,7 @@ func (in *Interp) intrinsic(fr *Frame, name string, args []Value, fn *ssa.Functi
 		}
 	case "time.Now":
 		in.note("stub: time.Now returns an arbitrary instant")
-		sec := ts.Var(in.freshInput("now.sec", SBV(64)), SBV(64))
+		sec := ts.Var(in.freshInput("now.sec", SBV(64))+"@BV64", SBV(64))
 		st := newStruct(in.timeType())
 		st.fields[0].v = int64(0)
 		st.fields[1].v = ts.Mk("bvadd", SBV(64), sec, ts.BV(64, uint64(unixToInternal)))
